@@ -264,7 +264,7 @@ func zero(t types.Type) value {
 		}
 		return s
 	case *types.Chan:
-		return chan value(nil)
+		return (*schan)(nil)
 	case *types.Map:
 		return (*hashmap)(nil)
 	case *types.Signature:
@@ -858,10 +858,7 @@ func unop(instr *ssa.UnOp, x value) value {
 	}
 	switch instr.Op {
 	case token.ARROW: // receive
-		v, ok := <-x.(chan value)
-		if !ok {
-			v = zero(instr.X.Type().Underlying().(*types.Chan).Elem())
-		}
+		v, ok := chanRecv(x, instr.X.Type().Underlying().(*types.Chan).Elem())
 		if instr.CommaOk {
 			v = tuple{v, ok}
 		}
@@ -1006,7 +1003,7 @@ func callBuiltin(caller *frame, callpos token.Pos, fn *ssa.Builtin, args []value
 		return copyLogged(args[0].([]value), src.([]value))
 
 	case "close": // close(chan T)
-		close(args[0].(chan value))
+		chanClose(args[0])
 		return nil
 
 	case "delete": // delete(map[K]value, K)
@@ -1047,8 +1044,11 @@ func callBuiltin(caller *frame, callpos token.Pos, fn *ssa.Builtin, args []value
 			return len(x)
 		case *hashmap:
 			return x.len()
-		case chan value:
-			return len(x)
+		case *schan:
+			if x == nil {
+				return 0
+			}
+			return len(x.buf)
 		default:
 			panic(fmt.Sprintf("len: illegal operand: %T", x))
 		}
@@ -1061,8 +1061,11 @@ func callBuiltin(caller *frame, callpos token.Pos, fn *ssa.Builtin, args []value
 			return cap((*x).(array))
 		case []value:
 			return cap(x)
-		case chan value:
-			return cap(x)
+		case *schan:
+			if x == nil {
+				return 0
+			}
+			return x.cap
 		default:
 			panic(fmt.Sprintf("cap: illegal operand: %T", x))
 		}
